@@ -10,8 +10,11 @@ RULE = 'a case is a text; failure = any exception or no termination within 20 s;
 
 def bounded(tier, seed, fallback_for):
     from pyvc import driver
-    return [driver.run_harness(ID, "h_pipeline.py", [ID, tier, str(seed)], "program-texts:" + ID,
-                               BOUND, RULE)]
+    return [driver.run_harness(ID, "h_pipeline.py", [ID, tier, str(seed)], "program-texts:" + ID, BOUND, RULE),
+            driver.run_harness(ID, "h_fs.py", [ID, tier, str(seed)], "ways-of-naming-a-file:" + ID,
+                               "check on UTF-8, Latin-1 and binary sources and on a directory, named relative, absolute, from another working "
+                               "directory (absolute and relative), plus a scan of the tree (20 invocations)",
+                               "every invocation must end with exit status 0 or 1 and no exception")]
 
 MANIFEST = {
     "category": "exploration",
